@@ -96,6 +96,7 @@ class _ECKey(SSHKey):
         elif (isinstance(alg_params, tuple) and len(alg_params) >= 5 and
               alg_params[0] == 1 and isinstance(alg_params[1], tuple) and
               len(alg_params[1]) == 2 and alg_params[1][0] == PRIME_FIELD and
+              isinstance(alg_params[1][1], int) and alg_params[1][1] > 0 and
               isinstance(alg_params[2], tuple) and len(alg_params[2]) >= 2 and
               isinstance(alg_params[3], bytes) and
               isinstance(alg_params[2][0], bytes) and
